@@ -175,6 +175,7 @@ func joinTokens(toks []ptok, rng *rand.Rand, base bool, edits int) string {
 
 func init() {
 	register("c11", Def{
+		Debug: true,
 		Rule: "seeded progressions rendered as a canonical text (degree notation or note names in a seeded key) and V spelling variants each: trivia (space, tab, newline, `;` comment, none) changed at " +
 			"seeded token gaps, `_` before symbols that do not need it, leading zeros on durations, # / b written as the Unicode signs; plus one-accidental texts for every key; plus stretched trivia (a gap holding 4 093 or 70 001 blanks, blank lines or comment characters: longer than any line buffer). The spec re-derives " +
 			"that base and variant have equal abstract token sequences; real `text conv` must print identical bytes for both and the meaning Conv.tla computes. distinct = distinct (base, variant) pairs",
